@@ -12,6 +12,9 @@ Proof. destruct s as [[] [] [] [] []]; vm_compute; tauto. Qed.
 Lemma errpaths_all_ok : forallb fn_ok api_functions = true.
 Proof. vm_cast_no_check (eq_refl true). Qed.
 
+Lemma early_returns_all_ok : forallb (early_returns_ok api_functions) api_functions = true.
+Proof. vm_cast_no_check (eq_refl true). Qed.
+
 Lemma errpaths_abort_lemma :
   forall f, In f api_functions ->
   forall h, h = throw_path \/ In h (fn_handlers f) ->
